@@ -12,7 +12,7 @@ nruns = int(sys.argv[5]) if len(sys.argv) > 5 else 4
 commands = bool(int(os.environ.get("MT_COMMANDS", "0")))
 scratch = tempfile.mkdtemp(prefix='mtdiag-', dir='/dev/shm')
 try:
-    wf = schedmt._one_wf({"seed": seed, "scratch": scratch, "features": feats, "nruns": nruns, "commands": commands})
+    wf = schedmt._one_wf({"seed": seed, "scratch": scratch, "features": feats, "nruns": nruns, "commands": commands, "manual": bool(int(os.environ.get("MT_MANUAL", "0")))})
     if "error" in wf:
         print(wf["error"]); sys.exit(2)
     print(wf["flow"])
@@ -25,13 +25,13 @@ R == MT_Runs[%d]
 DInit == LET s == R[%d].st IN
   /\\ pool = AsModelPool(s.pool) /\\ rhl = s.rhl /\\ rhbase = s.rhbase /\\ q = s.q /\\ cmds = s.cmds /\\ jobs = s.jobs
   /\\ net = s.net /\\ acks = s.acks /\\ stopped = s.stopped /\\ futseen = s.futseen /\\ maxfut = s.maxfut
-  /\\ tohold = s.tohold /\\ holdpt = s.holdpt /\\ stopcmd = (IF s.stop = W.fcp THEN NoPoint ELSE s.stop) /\\ cb = 9
+  /\\ tohold = s.tohold /\\ holdpt = s.holdpt /\\ stopcmd = (IF s.stop = W.fcp THEN NoPoint ELSE s.stop) /\\ cb = 9 /\\ trig = s.trig /\\ fset = {}
   /\\ done = OutsOf(s.pool) /\\ ran = {} /\\ fb = [dup |-> 0, crash |-> 0]
   /\\ db = [has |-> FALSE, pool |-> <<>>, tohold |-> {}, holdpt |-> NoPoint, stopcmd |-> NoPoint]
   /\\ tid = %d /\\ l = %d /\\ bad = {}
 DNext == \\/ l < %d /\\ Strict(R[l + 1]) /\\ l' = l + 1 /\\ UNCHANGED <<tid, bad>>
          \\/ l = %d /\\ Act(R[l + 1]) /\\ l' = l + 1 /\\ UNCHANGED <<tid, bad>>
-            /\\ PrintT(<<"SUCC", pool', rhl', rhbase', futseen', maxfut', tohold', holdpt', stopcmd', q', cmds', jobs', net', acks', stopped'>>)
+            /\\ PrintT(<<"SUCC", trig', pool', rhl', rhbase', futseen', maxfut', tohold', holdpt', stopcmd', q', cmds', jobs', net', acks', stopped'>>)
 DSpec == DInit /\\ [][DNext]_mtvars
 ====
 """ % (run, step - 1 - back, run, step - 1 - back, step - 1, step - 1))
@@ -48,7 +48,7 @@ DSpec == DInit /\\ [][DNext]_mtvars
     steps = None
     for k in range(run):
         home = tempfile.mkdtemp(prefix="r", dir=scratch)
-        plan = modeltrace.command_plan(w, rng) if commands and k % 2 == 1 else None
+        plan = modeltrace.command_plan(w, rng, manual=bool(int(os.environ.get("MT_MANUAL", "0")))) if commands and k % 2 == 1 else None
         r = modeltrace.one_mt_run(w, rng.randrange(1 << 30), rng.randrange(1 << 30), home,
                                   mode="complete_novanish" if k % 4 < 2 else "any_novanish", plan=plan)
         steps = r["steps"]
